@@ -11,14 +11,16 @@ from collections import Counter
 import numpy as np
 
 
-class Violation(Exception):
-    """A property clause failed on real menpo code."""
+class Violation(BaseException):
+    """A property clause failed on real menpo code.  Deliberately not an Exception
+    subclass: a machine's `except Exception` around a menpo call must never swallow
+    a verdict."""
 
     def __init__(self, check, sig, detail=""):
         self.check = check
         self.sig = sig
         self.detail = detail
-        Exception.__init__(self, "%s:%s %s" % (check, sig, detail))
+        BaseException.__init__(self, "%s:%s %s" % (check, sig, detail))
 
     @property
     def signature(self):
